@@ -7,7 +7,7 @@ use crate::refimpl::tokenizer::{normalize_newlines, RState, RefTokenizer};
 use crate::refimpl::treebuilder::{Builder, Quirks, Switches};
 use crate::sinks::canon::{canon, first_diff, CanonOpts};
 use crate::sinks::drive::{drive, quirks_name, CtxElem, TreeCfg};
-use crate::sinks::model::{model_canon, Dsd, ModelDom, DOC};
+use crate::sinks::model::{model_canon, ModelDom, DOC};
 use serde_json::{json, Value};
 
 /// All deviation switches that exist in the reference (a switch is only
@@ -59,6 +59,8 @@ pub fn run_reference(cfg: &TreeCfg, input: &str, kf: &Switches) -> RefOut {
             Builder::new_fragment(cfg.scripting, q0, kf.clone(), ns, &c.local, c.attrs.clone(), cfg.form_ptr)
         },
     };
+    b.dsd_allow = cfg.dsd_allow;
+    b.dsd_succeed = cfg.dsd_allow && cfg.dsd_succeed;
     let text: String = if cfg.discard_bom && input.starts_with('\u{feff}') { input.chars().skip(1).collect() } else { input.to_string() };
     let norm = normalize_newlines(&text);
     let start = match st {
@@ -96,8 +98,7 @@ pub fn run_reference(cfg: &TreeCfg, input: &str, kf: &Switches) -> RefOut {
 }
 
 pub fn run_real(cfg: &TreeCfg, chunks: &[String]) -> Result<(String, &'static str), String> {
-    let mut sink = ModelDom::new();
-    sink.dsd = if cfg.dsd_allow { Dsd::AllowFail } else { Dsd::Deny };
+    let sink = ModelDom::for_cfg(cfg);
     let (dom, _, _) = drive(sink, cfg, chunks, |_, _, _, _| {});
     Ok((model_canon(&dom, DOC, CanonOpts::default()), quirks_name(dom.quirks.get())))
 }
@@ -127,7 +128,6 @@ pub fn check_with(tc: &TreeCase, kf: &Switches, st: &mut Stats) -> Result<(), St
     // part of the property's domain are normalised
     let mut cfg = tc.cfg.clone();
     cfg.drop_doctype = false;
-    cfg.dsd_succeed = false; // the reference models the failing attach only
     let (real, rq) = run_real(&cfg, &[tc.input.clone()])?;
     let rf = run_reference(&cfg, &tc.input, kf);
     if real != rf.dump {
@@ -300,7 +300,7 @@ pub fn decode(s: &mut Src) -> TreeCase {
 
 pub fn run(ctx: &Ctx) -> Report {
     let mut rep = Report::new(
-        "Differential: html5ever's parse_document / parse_fragment into the ModelDom sink vs an independent transcription of WHATWG 13.2.6 (refimpl::treebuilder, arena DOM, coupled to the reference tokenizer as the standard couples them): canonical dumps (node kinds and order, element names and namespaces, attribute names/namespaces/prefixes/values in order, text, comments, doctype name and ids, template contents, per-element duplicate-attribute flag) and the reported quirks mode must be equal. Search: (1) grammar-generated inputs (0..40 tokens over a dictionary of every element the tree-construction rules name, attributes that matter to the rules, text/NUL/whitespace, comments, doctypes from the quirks tables, CDATA, structure shortcuts, character noise) as documents and as fragments under ~50 context elements (HTML, SVG, MathML incl. annotation-xml with/without encoding), scripting on/off, iframe_srcdoc, initial quirks mode, declarative-shadow-root policy, caller-supplied form pointer; (2) every sequence of <= 2 (thorough 3) tokens over ~110 tag tokens (start/end of 49 structurally relevant names, text, whitespace, comment, NUL, hidden input, font color, annotation-xml encoding) in document mode and (quick: length 2) in 8 fragment contexts; (3) doctype sweep: every entry of the quirks tables x {exact, upper-cased, extended, prefixed, truncated} x system id {absent, empty, ibm, other} x name {html, HTML, foo} x iframe_srcdoc. Non-trivial: the reference's counters show adoption agency with a furthest block, Noah's Ark removal, reconstruction, foster parenting, reset-insertion-mode, foreign content, break-out, template, frameset replacing body, head re-push, content after </body>, or a non-div fragment context, or quirks != NoQuirks; distinct by hash of (configuration, input). (4) every fragment context (HTML names the fragment algorithm consults, the same names in the SVG and MathML namespaces, foreign names in the HTML namespace, annotation-xml with exact and near-miss encoding values) x with/without a form pointer x every sequence of <=3 (thorough: 4) probe tokens.",
+        "Differential: html5ever's parse_document / parse_fragment into the ModelDom sink vs an independent transcription of WHATWG 13.2.6 (refimpl::treebuilder, arena DOM, coupled to the reference tokenizer as the standard couples them): canonical dumps (node kinds and order, element names and namespaces, attribute names/namespaces/prefixes/values in order, text, comments, doctype name and ids, template contents, per-element duplicate-attribute flag) and the reported quirks mode must be equal. Search: (1) grammar-generated inputs (0..40 tokens over a dictionary of every element the tree-construction rules name, attributes that matter to the rules, text/NUL/whitespace, comments, doctypes from the quirks tables, CDATA, structure shortcuts, character noise) as documents and as fragments under ~50 context elements (HTML, SVG, MathML incl. annotation-xml with/without encoding), scripting on/off, iframe_srcdoc, initial quirks mode, declarative-shadow-root policy (the sink denies them, allows them and fails to attach, or allows them and attaches: the template's contents then become a shadow root of the host, shown in the dump), caller-supplied form pointer; (2) every sequence of <= 2 (thorough 3) tokens over ~110 tag tokens (start/end of 49 structurally relevant names, text, whitespace, comment, NUL, hidden input, font color, annotation-xml encoding) in document mode and (quick: length 2) in 8 fragment contexts; (3) doctype sweep: every entry of the quirks tables x {exact, upper-cased, extended, prefixed, truncated} x system id {absent, empty, ibm, other} x name {html, HTML, foo} x iframe_srcdoc. Non-trivial: the reference's counters show adoption agency with a furthest block, Noah's Ark removal, reconstruction, foster parenting, reset-insertion-mode, foreign content, break-out, template, frameset replacing body, head re-push, content after </body>, or a non-div fragment context, or quirks != NoQuirks; distinct by hash of (configuration, input). (4) every fragment context (HTML names the fragment algorithm consults, the same names in the SVG and MathML namespaces, foreign names in the HTML namespace, annotation-xml with exact and near-miss encoding values) x with/without a form pointer x every sequence of <=3 (thorough: 4) probe tokens.",
     );
     rep.assume("reference tree builder (harness/src/refimpl/treebuilder.rs, tb_modes.rs) transcribes the living standard from memory (no network); the customizable-select rules (select/option/optgroup/hr/input in select) mirror html5ever's reading and are tested for self-consistency only");
     rep.assume("maybe-clone-an-option-into-selectedcontent is a no-op on both sides (RcDom's duty, C20)");
